@@ -399,7 +399,7 @@ class FLAE:
         self.ref = np.vstack((acc_ref, mag_ref))
         # Weights of sensors
         self.a: np.ndarray = kw.get('weights', np.array([0.5, 0.5]))
-        self.a /= np.sum(self.a)
+        self.a = self.a/np.sum(self.a)
         if self.acc is not None and self.mag is not None:
             self.Q = self._compute_all()
 
